@@ -13,6 +13,9 @@
     walks the specification along (candidate states; the named deviation raw-omits-partial-multisig).  Every distinct
     raw transaction is additionally judged by TLC under the consensus rules (script hashes, CHECKMULTISIG order, digest of
     SigHash.tla) with hashes and ECDSA supplied as oracle facts from harness/ref.py.
+    The cosigner wallets of a group differ in their settings (anti_fee_sniping on / off) and proposals vary locktime and
+    replace_by_fee; the body (version, locktime, outpoints, sequences, outputs) TLC reads from raw() after every action
+    must be the body of the copy the action started from: no hand-off may change what the signatures commit to.
 """
 import itertools
 import logging
